@@ -188,6 +188,8 @@ static std::string handle(const std::vector<std::string>& a) {
     RUN("string", input)
     { std::string_view sv(exact, n); RUN("string_view", sv) }
     { std::istringstream is(input); RUN("istream", is) }
+    { ChunkedBuf cb(input, 1); std::istream is(&cb); RUN("istreamBlocks1", is) }
+    { ChunkedBuf cb(input, 3); std::istream is(&cb); RUN("istreamBlocks3", is) }
     { CountingReader rd(input, json); RUN("custom", rd); if (rd.fault) res += "custom=FAULT "; }
     { ::String as; as.limitCapacityTo(size_t(1) << 30);
       if (input.find('\0') == std::string::npos) { as = input.c_str(); RUN("arduinoString", as) } }
@@ -223,8 +225,11 @@ static std::string handle(const std::vector<std::string>& a) {
     std::string res;
     std::istringstream is(input);
     CountingReader rd(input, json);
+    ChunkedBuf cb(input, 2 + input.size() % 3);
+    std::istream cis(&cb);
     for (int k = 0; k < 40; k++) {
-      JsonDocument d1, d2;
+      JsonDocument d1, d2, d3;
+      DeserializationError e3 = json ? deserializeJson(d3, cis) : deserializeMsgPack(d3, cis);
       DeserializationError e1 = json ? deserializeJson(d1, is) : deserializeMsgPack(d1, is);
       DeserializationError e2 = json ? deserializeJson(d2, rd) : deserializeMsgPack(d2, rd);
       long pos1 = is.eof() ? (long)input.size() : (long)is.tellg();
@@ -232,6 +237,8 @@ static std::string handle(const std::vector<std::string>& a) {
       res += std::string(codeName(e2)) + "@" + std::to_string(rd.pos) + ":" + dump(d2.as<JsonVariantConst>()) + " ";
       if (e1 != e2 || dump(d1.as<JsonVariantConst>()) != dump(d2.as<JsonVariantConst>()) || pos1 != (long)rd.pos)
         res += "ISTREAM-DIFFERS(" + std::string(codeName(e1)) + "@" + std::to_string(pos1) + ") ";
+      if (e3 != e2 || dump(d3.as<JsonVariantConst>()) != dump(d2.as<JsonVariantConst>()) || (!e2 && cb.consumed() != rd.pos))
+        res += "BLOCK-ISTREAM-DIFFERS(" + std::string(codeName(e3)) + "@" + std::to_string(cb.consumed()) + ") ";
       if (e2) break;
     }
     return res;
